@@ -260,7 +260,11 @@ func lookupHostFn(cfg *config.Config, notFound gkm.Counter) func(string) *route.
 
 // Returns a matcher function compatible with tcpproxy Matcher from github.com/inetaf/tcpproxy
 func lookupHostMatcher(cfg *config.Config) func(context.Context, string) bool {
-	pick := route.Picker[cfg.Proxy.Strategy]
+	// the matcher only wants to know the protocol of the route. It must not
+	// take a turn of the round-robin ring: the proxy which handles the
+	// connection afterwards picks the target and with proxy.strategy=rr a
+	// second pick per connection would serve every other slot of the ring only.
+	pick := route.Picker["rnd"]
 	return func(ctx context.Context, host string) bool {
 		t := route.GetTable().LookupHost(host, pick)
 		if t == nil {
